@@ -550,9 +550,12 @@ class ExecutionPaths(Output):
             filename = dest / self._filename(idx)
             print(f"\t\t check file: {filename}")
 
+            # blocks of the path are blocks of the function: the function has its own copy of the contract's
+            # main blocks. Use block ids to find the corresponding blocks of the contract.
+            path_block_ids = set(bb.idx for bb in path)
             config.bb_border_color = (
                 lambda bb: "BLACK"
-                if bb not in path  # pylint: disable=cell-var-from-loop
+                if bb.idx not in path_block_ids  # pylint: disable=cell-var-from-loop
                 else "RED"
             )
             full_cfg_to_dot(self._teal, config, filename)
